@@ -71,7 +71,11 @@ func hSendProto(o Op) map[string]interface{} {
 	if opt.boolean("stall") {
 		to = 300 * time.Millisecond
 	}
-	timer := time.NewTimer(to)
+	// (torn down after `to` WITHOUT stream traffic, hard limit 15x: a run of tens of thousands of one-byte packets on a loaded
+	// machine is slow, not blocked)
+	timer := time.NewTicker(to / 4)
+	defer timer.Stop()
+	started := time.Now()
 	n := 0
 	blocked := false
 	var tornAt time.Time
@@ -80,6 +84,12 @@ func hSendProto(o Op) map[string]interface{} {
 		case <-done:
 			n++
 		case <-timer.C:
+			if !opt.boolean("stall") && log.idleFor() < to && time.Since(started) < 15*to {
+				continue
+			}
+			if opt.boolean("stall") && time.Since(started) < to {
+				continue
+			}
 			blocked = !opt.boolean("stall")
 			sh.teardown()
 			tornAt = time.Now()
